@@ -913,7 +913,7 @@ def op_chem_pair(res, a, b):
         ref = float(3 * fa / fb)
         if _isexc(got) or not A.close(got, ref, max(ta, tb)):
             res.outcomes["chem-pair-WRONG"] += 1
-            res.violation("C09|default_units|%s->%s|wrong-ratio" % (a, b), "to_unitless(3 %s, %s) = %r, definitions give %r" % (a, b, got, ref), case, got, ref)
+            res.violation("C09|default_units|pair-of-chemistry-units|wrong-ratio", "to_unitless(3 %s, %s) = %r, definitions give %r" % (a, b, got, ref), case, got, ref)
         else:
             res.outcomes["chem-pair-ok"] += 1
     else:
